@@ -32,13 +32,20 @@ MANIFEST = {
             "and 'nothing else preserved is clobbered' beyond the variables' own registers; "
             "the former K3/K4/K5 witnesses are now theorems of correct / refused behaviour (shuffle_swap_ext_repaired, shuffle_cross_group_refused, "
             "shuffle_a64_ext_repaired). Every schedule the real code emits is additionally "
-            "judged by the abstract machine of Spec/Machine.lean (monitor = testing).",
+            "judged by the abstract machine of Spec/Machine.lean (monitor = testing). "
+            "Invoke lowering of the x86 Compiler (round 11, Props/C06Invoke.lean): temps_ok - for every signature and operand list the stack "
+            "temporaries of by-reference vector arguments are aligned, pairwise disjoint, above the callee's stack arguments and inside the "
+            "call_stack_size / call_stack_alignment that on_before_invoke records (so never over the caller's locals); imm_stack_arg_machine / "
+            "imm_reg_arg_machine - for every 64-bit immediate and every accepted type the emitted stores / mov leave the immediate's bytes at the "
+            "argument's location (the sign-extending mov qword shortcut only when it reproduces the value); reg_stack_arg_machine - every integer "
+            "type pair and register value is extended as the parameter type requires on its way to a stack slot; open finding C06-K9: "
+            "register-position arguments are not extended (witness theorem + host execution).",
     "note": "Model follows the code with fixes C06-1..16 (all in /repo). Trusted: Lean kernel; Spec/ABI.lean and Spec/Machine.lean as the meaning of the ABIs / of "
             "the mov family; the FuncFrame facts (dirty/preserved masks, SA register/offsets) are inputs taken from the real frame (C07); the "
-            "harness/driver diff. No open finding. Not claimed: mmx on 32-bit, 64-bit integers under GCC regparm, call-site marshalling inside the "
-            "register allocator (C05), shuffle_correct for stack destinations / non-integer groups without the selection hypothesis, byte overlap of stack slots (movaps stores 16 bytes for a float).",
+            "harness/driver diff. Open finding C06-K9 (register-position invoke arguments not extended; partial repair fixes/C06-17). Not claimed: mmx on 32-bit, 64-bit integers under GCC regparm, call-site marshalling inside the "
+            "register allocator (C05: the allocator's own moves are only judged by the machine monitor), a64 invoke lowering, shuffle_correct for stack destinations / non-integer groups without the selection hypothesis, byte overlap of stack slots (movaps stores 16 bytes for a float).",
 }
-MODS = ["AsmjitVerif.Props.C06"]
+MODS = ["AsmjitVerif.Props.C06", "AsmjitVerif.Props.C06Invoke"]
 
 INTS = [32, 33, 34, 35, 36, 37, 38, 39, 40, 41]
 FLTS = [42, 43]
@@ -204,7 +211,10 @@ def run(res):
         "emit_args_assignment: executable model tied by correspondence + abstract-machine monitor on the real instruction lists; the schedule-level "
         "theorem covers register-only assignments (phase 3 at context level); instruction semantics = Spec/Machine.lean; "
         "FuncFrame facts are inputs of the shuffle model (taken from the real frame)",
-        "call-site marshalling in x86rapass/a64rapass (on_before_invoke) is not modelled here (C05)"]
+        "invoke lowering (x86rapass.cpp on_before_invoke + move_* helpers): Model/InvokeLower.lean tied by correspondence on the lowering's "
+        "instructions and the frame's call-stack numbers; every real post-RA instruction list is judged by Spec/InvokeMachine.lean; on an "
+        "x86-64 host the calls are additionally executed (SysV caller, SysV / Microsoft x64 callee stub) and the received arguments compared; "
+        "the register allocator itself is C05's; a64rapass.cpp has no by-reference temporaries / 64-bit immediate split and is not driven"]
     broken = []
     ok, out = vlib.lean_stage(res, PID, MODS)
     if not ok and not res.violations:
@@ -283,13 +293,20 @@ def run(res):
     # ---- argument shuffle -------------------------------------------------------------------------------------------
     sh_corr = shf.run_shuffle(res, h, rng)
 
-    res.coverage["evaluations"] = res.coverage["fd_evaluations"] + res.coverage.get("sh_evaluations", 0)
+    # ---- invoke lowering (x86 Compiler) ---------------------------------------------------------------------------
+    import props.c06_invoke as ivk
+    iv_corr = ivk.run_invoke(res, h, rng)
+
+    res.coverage["evaluations"] = res.coverage["fd_evaluations"] + res.coverage.get("sh_evaluations", 0) + res.coverage.get("iv_evaluations", 0)
     res.coverage["distinct_nontrivial"] = len({o for o, r in zip(ops, impl) if r.startswith("ok")}) + res.coverage.get("sh_nontrivial", 0)
     res.coverage["rule"] = ("fd: per (target, convention): uniform/alternating signatures up to 32 arguments, 16..64-byte vectors after 0..3 "
                             "eight-byte stack slots, by-reference vectors at positions 0..31, small Apple stack arguments, varargs at every index, "
                             "all return types, seeded random signatures (thorough: all signatures of length <= 4 over 6 types); "
                             "sh: all permutations of <= 4 (quick) / 5 (thorough) GP and vector registers, random partial injective maps with cycles, "
-                            "widening self-moves, stack sources/destinations; non-trivial = distinct op the real code answers with ok")
+                            "widening self-moves, stack sources/destinations; iv: per (target, callee convention) every boundary immediate x every integer "
+                            "type at register and stack positions, every (parameter, register) type pair, by-reference / by-value vectors of 16/32/64 "
+                            "bytes at positions 0..6 with and without a local, floats, seeded mixes; ivx: the same classes executed on the host; "
+                            "non-trivial = distinct op the real code answers with ok")
     res.coverage["exhaustive"] = False
     res.coverage["traces_validated_against_impl"] = len(ops) + res.coverage.get("sh_evaluations", 0)
 
@@ -306,6 +323,12 @@ def run(res):
         res.violation("correspondence model/implementation differs at %r: impl=%s model=%s (%d differing ops); the machine monitor is good "
                       "on them" % (o, a, b, n), {"ops": [o], "impl": a, "model": b,
                                                  "unchecked": "correspondence Model/ArgShuffle.lean ~ emithelper.cpp/funcargscontext.cpp"},
+                      False, key="corr")
+    if iv_corr and not fd_corr and not sh_corr and not unknown_found:
+        o, a, b, n = iv_corr
+        res.violation("correspondence model/implementation differs at %r: impl=%s model=%s (%d differing ops); the machine monitor is good "
+                      "on them" % (o, a[:600], b[:600], n), {"ops": [o], "impl": a, "model": b,
+                                                 "unchecked": "correspondence Model/InvokeLower.lean ~ x86rapass.cpp on_before_invoke"},
                       False, key="corr")
     if broken:
         # always reported (known findings among res.violations must not hide a failed proof build)
